@@ -2,6 +2,7 @@ package props
 
 import (
 	"crypto/sha256"
+	"errors"
 	"fmt"
 	"math/rand"
 	"net/url"
@@ -13,6 +14,7 @@ import (
 	"sync/atomic"
 	"time"
 
+	"github.com/google/uuid"
 	"github.com/zitadel/saml/pkg/provider"
 
 	"verif/harness/core"
@@ -102,20 +104,28 @@ func c15Round(r *core.Run, idx int, rng *rand.Rand) {
 		user     *sim.User
 		host     string
 		sessions []string
-		ref      []refAttr // attributes of the user as registered (deep copy)
+		acsOf    map[string]string // consumer URL persisted for each session
+		ref      []refAttr         // attributes of the user as registered (deep copy)
 	}
 	cs := make([]*clientState, clients)
 	userOfApp := map[string]*sim.User{}
 	for c := 0; c < clients; c++ {
 		d := stdSP(c % 4)
 		d.EntityID = fmt.Sprintf("https://spc%d.example/metadata", c)
-		d.ACS = []spsim.ACS{{Binding: []string{spsim.BindPost, spsim.BindRedirect}[c%2], Location: fmt.Sprintf("https://spc%d.example/acs", c), Index: "0"}}
+		// several consumer services, two of one binding, listed out of index order and without a default: which one a
+		// request gets depends on the request alone (its ProtocolBinding), never on what other sessions asked for
+		own, other := []string{spsim.BindPost, spsim.BindRedirect}[c%2], []string{spsim.BindPost, spsim.BindRedirect}[(c+1)%2]
+		d.ACS = []spsim.ACS{
+			{Binding: own, Location: fmt.Sprintf("https://spc%d.example/acs", c), Index: "5"},
+			{Binding: other, Location: fmt.Sprintf("https://spc%d.example/acs/other", c), Index: "3"},
+			{Binding: own, Location: fmt.Sprintf("https://spc%d.example/acs/low", c), Index: "1"},
+		}
 		d.SLO = []spsim.SLO{{Binding: spsim.BindPost, Location: fmt.Sprintf("https://spc%d.example/slo", c)}}
 		mustRegister(e.W, d, fmt.Sprintf("appc%d", c))
 		u := randUser(rand.New(rand.NewSource(int64(idx*1000+c))), fmt.Sprintf("U_MK_c%dx", c), false)
 		e.W.AddUser(u)
 		userOfApp[fmt.Sprintf("appc%d", c)] = u
-		cs[c] = &clientState{sp: d, user: u, host: fmt.Sprintf("hc%d.idp.example", c)}
+		cs[c] = &clientState{sp: d, user: u, host: fmt.Sprintf("hc%d.idp.example", c), acsOf: map[string]string{}}
 		for _, a := range refAttributes(u) {
 			a.Values = append([]string(nil), a.Values...)
 			cs[c].ref = append(cs[c].ref, a)
@@ -219,6 +229,8 @@ func c15Round(r *core.Run, idx int, rng *rand.Rand) {
 				switch op := lr.Intn(10); {
 				case op < 3 || len(st.sessions) == 0:
 					a := validAuthn(lr, st.sp)
+					a.ACSURL, a.ACSIndex = "", ""
+					a.ProtocolBinding = []string{"", st.sp.ACS[0].Binding, st.sp.ACS[1].Binding}[lr.Intn(3)]
 					a.ID = fmt.Sprintf("MK_c%dxreq%d", c, k)
 					a.Destination = "https://" + st.host + "/saml/SSO"
 					s := ssoSend{Binding: []string{"redirect", "post"}[lr.Intn(2)], XML: a.XML(lr), HasRelay: true, Relay: fmt.Sprintf("MK_c%dxrelay%d", c, k)}
@@ -231,8 +243,17 @@ func c15Round(r *core.Run, idx int, rng *rand.Rand) {
 					call := do("sso", env.Req{Method: method, Path: env.PathSSO, Query: q, Body: body})
 					if ev := call.First("CreateAuthRequest"); ev != nil && !ev.Err {
 						st.sessions = append(st.sessions, ev.Res)
-						if len(ev.Args) >= 4 && (ev.Args[0] != st.sp.ACS[0].Location || ev.Args[3] != fmt.Sprintf("appc%d", c) || ev.Args[2] != s.Relay) {
-							report("foreign_data_persisted", "sso", fmt.Sprintf("client %d persisted %v", c, ev.Args), call)
+						okPair := false
+						if len(ev.Args) >= 4 {
+							for _, p := range refConsumerChoice(st.sp.ACS, a.ProtocolBinding) {
+								if p >= 0 && ev.Args[0] == st.sp.ACS[p].Location && ev.Args[1] == st.sp.ACS[p].Binding {
+									okPair = true
+								}
+							}
+							st.acsOf[ev.Res] = ev.Args[0]
+						}
+						if len(ev.Args) >= 4 && (!okPair || ev.Args[3] != fmt.Sprintf("appc%d", c) || ev.Args[2] != s.Relay) {
+							report("foreign_data_persisted", "sso", fmt.Sprintf("client %d (requested binding %q) persisted %v - not determined by its own request and registration", c, a.ProtocolBinding, ev.Args), call)
 						}
 					} else if call.Panic == "" {
 						report("own_request_rejected", "sso", fmt.Sprintf("client %d: status %d", c, call.D.Status), call)
@@ -254,7 +275,7 @@ func c15Round(r *core.Run, idx int, rng *rand.Rand) {
 							if d := setDiffList(attrMultiset(st.ref), attrMultiset(msgAttrs(m))); d != "" {
 								report("reply_not_determined_by_own_request", kind, fmt.Sprintf("client %d: attribute statement differs from the registered record of %s: %s", c, st.user.Username, d), call)
 							}
-							if m.NameID != st.user.Username || m.Issuer != entityOf(st.host) || len(m.Audiences) != 1 || m.Audiences[0] != st.sp.EntityID || !strings.HasPrefix(call.D.RelayState, fmt.Sprintf("MK_c%dx", c)) || m.Destination != st.sp.ACS[0].Location {
+							if m.NameID != st.user.Username || m.Issuer != entityOf(st.host) || len(m.Audiences) != 1 || m.Audiences[0] != st.sp.EntityID || !strings.HasPrefix(call.D.RelayState, fmt.Sprintf("MK_c%dx", c)) || m.Destination != st.acsOf[id] {
 								report("reply_not_determined_by_own_request", kind, fmt.Sprintf("client %d: NameID %q Issuer %q Audience %v RelayState %q Destination %q", c, m.NameID, m.Issuer, m.Audiences, call.D.RelayState, m.Destination), call)
 							}
 						}
@@ -402,6 +423,90 @@ func c15IDs(r *core.Run, idx int, rng *rand.Rand) {
 	}
 }
 
+type failingEntropy struct{}
+
+func (failingEntropy) Read(p []byte) (int, error) { return 0, errors.New("injected entropy fault") }
+
+// c15Entropy: the random source the ID generator draws from fails for a while (it is process-wide, so this workload runs
+// alone). A request may die then; but every reply that does leave the provider carries IDs that are xs:ID values,
+// distinct from each other and from every ID seen before and after.
+func c15Entropy(r *core.Run, idx int, rng *rand.Rand) {
+	const wl = "entropy_fault"
+	e := env.Static(env.Opts{MetaSigAlg: spsim.AlgRSASHA256})
+	d := stdSP(0)
+	d.SLO = []spsim.SLO{{Binding: spsim.BindPost, Location: "https://sp0.example/slo"}}
+	mustRegister(e.W, d, "appA")
+	seen := map[string]string{}
+	dups, bad, died, replies := 0, 0, 0, 0
+	var first string
+	serve := func(phase string, n int) {
+		for k := 0; k < n; k++ {
+			sc := randScenario(rng, fmt.Sprintf("MK%dp%s%dx", idx, phase, k), false)
+			sc.Host = ""
+			sc.install(e.W)
+			l := conformantLogout(rng, d)
+			calls := []*env.Call{
+				e.Do(env.Req{Path: env.PathLogin, Query: "id=" + url.QueryEscape(sc.S.ID)}),
+				e.Do(env.Req{Path: env.PathMetadata}),
+				e.Do(env.Req{Method: "POST", Path: env.PathSLO, Body: spsim.FormBody("SAMLRequest", spsim.B64([]byte(l.XML(rng))))}),
+			}
+			for ci, c := range calls {
+				if c.Panic != "" {
+					died++
+					continue
+				}
+				var ids []string
+				if c.D.Msg != nil {
+					ids = append(ids, c.D.Msg.AllIDs...)
+				}
+				if ci == 1 && c.D.Doc != nil {
+					for _, el := range c.D.Doc.Root().FindElements("//*[@ID]") {
+						ids = append(ids, el.SelectAttrValue("ID", ""))
+					}
+					if id := c.D.Doc.Root().SelectAttrValue("ID", ""); id != "" {
+						ids = append(ids, id)
+					}
+				}
+				if len(ids) > 0 {
+					replies++
+				}
+				inReply := map[string]bool{}
+				for _, id := range ids {
+					if id == "" || inReply[id] && ci == 1 {
+						continue // the root's ID is collected twice for metadata
+					}
+					if !isNCName(id) {
+						bad++
+					}
+					where := fmt.Sprintf("%s/%d/%d", phase, k, ci)
+					if prev, ok := seen[id]; ok && !(inReply[id] && prev == where) {
+						dups++
+						if first == "" {
+							first = fmt.Sprintf("%q in %s and %s", id, prev, where)
+						}
+					}
+					seen[id] = where
+					inReply[id] = true
+				}
+			}
+		}
+	}
+	serve("healthy", 6)
+	uuid.SetRand(failingEntropy{})
+	serve("fault", 6)
+	uuid.SetRand(nil)
+	serve("recovered", 6)
+	r.Eval(fmt.Sprintf("entropy|%d", idx))
+	r.Count("replies_around_entropy_fault", int64(replies))
+	r.Count("requests_that_died_during_entropy_fault", int64(died))
+	if dups > 0 {
+		r.Violate(core.Violation{Clause: "duplicate_id", Class: "entropy_fault", Reason: fmt.Sprintf("%d IDs were issued more than once around a failure of the random source (e.g. %s)", dups, first), Workload: wl, Index: idx})
+	}
+	if bad > 0 {
+		r.Violate(core.Violation{Clause: "id_syntax", Class: "entropy_fault", Reason: fmt.Sprintf("%d IDs are not xs:ID values", bad), Workload: wl, Index: idx})
+	}
+}
+
 func init() {
 	register(&Prop{
 		ID: "C15", Level: "exploration", Race: true, DeathIsViolation: true,
@@ -426,6 +531,7 @@ func init() {
 				}},
 				{Name: "concurrent_duplicates", N: c.Pick(16, 160), Fn: c08ConcurrentDuplicates},
 				{Name: "aborted_neighbour", N: c.Pick(12, 120), Fn: c07AbortedNeighbour},
+				{Name: "entropy_fault", N: c.Pick(2, 10), Workers: 1, Fn: c15Entropy},
 			}
 		},
 	})
